@@ -52,13 +52,14 @@ def _b(x):
     return "TRUE" if x else "FALSE"
 
 
-def _prepare(scratch, N):
+def _prepare(scratch, N, shape=0):
     """one file per format with N frames; returns {ext: (path, ref_x_native, open_kwargs)}"""
-    d = os.path.join(scratch, "files-%d" % N)
+    d = os.path.join(scratch, "files-%d-%d" % (N, shape))
     os.makedirs(d, exist_ok=True)
     out = {}
     for ext in FORMATS:
         path = os.path.join(d, "t." + ext)
+        trajgen.set_shape(shape, ext)
         if ext == "arc":
             ref = trajgen.make_arc(path, N)
         elif ext == "stale.dcd":
@@ -72,6 +73,7 @@ def _prepare(scratch, N):
             trajgen.write_file(path, N)
             ref = [(f + 1) * 0.1 * trajgen.scale_of(ext) for f in range(N)]
         out[ext] = (path, ref, {"n_atoms": trajgen.NA} if ext == "mdcrd" else {})
+    trajgen.set_shape(0)
     return out
 
 
@@ -91,8 +93,9 @@ def _ids(r, ref):
 def _replay(task):
     """returns None when every step agrees with the specification, else the observed trace"""
     import mdtraj as md
-    ext, ai, N, hist = task
-    path, ref, kw = _files[N][ext]
+    ext, ai, N, hist = task[:4]
+    shape = task[4] if len(task) > 4 else 0
+    path, ref, kw = _files[(N, shape)][ext]
     hs = {1: md.open(path, **kw), 2: md.open(path, **kw)}
     rk = {"atom_indices": np.array(AIDX)} if ai else {}
     obs = []
@@ -159,11 +162,12 @@ def run(ctx):
     tasks = []
     n_tests = {}
     for (N, D, view, sim, depth) in plans:
-        if N not in _files:
-            try:
-                _files[N] = _prepare(ctx.scratch, N)
-            except Exception as e:
-                ctx.machinery_failure("cannot prepare test files: %r" % (e,))
+        for shape in range(len(trajgen.SHAPES)):
+            if (N, shape) not in _files:
+                try:
+                    _files[(N, shape)] = _prepare(ctx.scratch, N, shape)
+                except Exception as e:
+                    ctx.machinery_failure("cannot prepare test files: %r" % (e,))
         for caps in capsets:
             tests = _emit(ctx, N, D, caps, view, sim, depth)
             n_tests[(N, D, view, bool(sim), caps)] = len(tests)
@@ -172,15 +176,20 @@ def run(ctx):
                     continue
                 for ai in (False, True, True):
                     for h in tests:
-                        tasks.append((ext, ai, N, h))
+                        tasks.append((ext, ai, N, h, 0))
+                if ext != "arc":          # second file shape (20 atoms, no box records where the format allows it)
+                    for ai in (False, True):
+                        for h in tests:
+                            tasks.append((ext, ai, N, h, 1))
     if ctx.replay:
         with open(ctx.replay) as f:
             rp = json.load(f)
         tasks = [tuple(rp["first"]["detail"]["task"])]
-        if tasks[0][2] not in _files:
-            _files[tasks[0][2]] = _prepare(ctx.scratch, tasks[0][2])
-    elif not ctx.thorough and len(tasks) > 40000:
-        tasks = stratified_sample(tasks, lambda t: (t[0], t[1], t[3][-1]["op"]), 40000, ctx.rng)
+        sh = tasks[0][4] if len(tasks[0]) > 4 else 0
+        if (tasks[0][2], sh) not in _files:
+            _files[(tasks[0][2], sh)] = _prepare(ctx.scratch, tasks[0][2], sh)
+    elif not ctx.thorough and len(tasks) > 50000:
+        tasks = stratified_sample(tasks, lambda t: (t[0], t[1], t[4], t[3][-1]["op"]), 50000, ctx.rng)
     res = pool.run_tasks(_replay, tasks, workers=16, timeout=60, batch=64)
     fails = []
     for t, (st, val) in zip(tasks, res):
